@@ -10,6 +10,8 @@ of `react`, then `call`s, `close`, `log`.
   hclient accept <j> <ev>|…          what the server writes as soon as it has accepted the j-th connection   → ok
   hclient call <api> [<mi> <back> <ctlOk>]     api = options describe announce setup play record pause
         → <res> <state> <closed 0|1> <closeRes>
+  hclient tick <got> <stale>         the liveness timer of the play state fires (got: a UDP packet has arrived;
+                                     stale: nothing arrived for ReadTimeout)      → <state> <closed> <closeRes>
   hclient close                      → <state> <closed> <closeRes>
   hclient log                        → the requests written by the client: <METH>:<cseq>:<sess>:<auth>:<tp> …
 
@@ -125,7 +127,8 @@ def errName : Err → String
   | .serverRequestedTCP => "serverRequestedTCP" | .serverRequestedUDP => "serverRequestedUDP"
   | .invalidDelivery => "invalidDelivery" | .serverPortsNotProvided => "serverPortsNotProvided"
   | .noInterleavedIDs => "noInterleavedIDs" | .invalidInterleavedIDs => "invalidInterleavedIDs"
-  | .interleavedIDsInUse => "interleavedIDsInUse" | .other => "other"
+  | .interleavedIDsInUse => "interleavedIDsInUse" | .udpTimeout => "udpTimeout" | .tcpTimeout => "tcpTimeout"
+  | .other => "other"
 
 def resName : Res → String
   | none => "ok"
@@ -221,6 +224,11 @@ def mk : IO Handler := do
         let d1 := pump 100000 { d with st := step d.cfg d.st (.call a) }
         ref.set d1
         return s!"{lastRet (d1.log.drop n0)} {showState d1.st}"
+    | ["tick", got, stale] =>
+      let d ← ref.get
+      let d1 := pump 100000 { d with st := step d.cfg d.st (.liveness (got == "1") (stale == "1")) }
+      ref.set d1
+      return showState d1.st
     | ["close"] =>
       let d ← ref.get
       let d1 := pump 100000 { d with st := step d.cfg d.st .close }
